@@ -180,6 +180,8 @@ HARNESSES = [
                 for part, nm in ((0, "priority"), (1, "filename"), (2, "flags")) for n in (3, 5)
                 if not (part == 2 and n == 3)] +
                [dict(id="flags_len3", defines={"PART": 2, "LEN": 3, "__NO_CTYPE": None}, unwind=17, tier="thorough")] +
+               [dict(id="flags_kw%d" % k, defines={"PART": 2, "KW": k, "__NO_CTYPE": None}, unwind=27, tier="quick",
+                     label="bounded(one keyword)") for k in range(6)] +
                [dict(id="%s_len%d" % (nm, 8), defines={"PART": part, "LEN": 8, "__NO_CTYPE": None},
                      unwind=max(11, 17 if part == 2 else 0), tier="thorough", label="bounded(line <= 8 bytes)")
                 for part, nm in ((0, "priority"), (1, "filename"))]),
